@@ -84,7 +84,7 @@ where
         .unwrap_or(simcommon::SchedSpec::Sticky);
     let (scheduler, trace) = simcommon::SimScheduler::new(spec);
     let mut cfg = shuttle::Config::new();
-    cfg.stack_size = 256 << 20;
+    cfg.stack_size = std::env::var("SIM_STACK_MB").ok().and_then(|s| s.parse::<usize>().ok()).unwrap_or(256) << 20;
     cfg.max_steps = shuttle::MaxSteps::FailAfter(50_000_000);
     cfg.failure_persistence = shuttle::FailurePersistence::None;
     cfg.silence_warnings = true;
